@@ -88,6 +88,48 @@ package nflog
 //@   ensures [empty-otherwise] entry == nil || entry.ReceiverData == nil ==> len(result.data) == 0
 //@   assigns nothing
 
+// C10: the store's accessors: a value set under a key is read back unchanged with the accessor of its kind, is not
+// visible to the accessors of the other kinds, other keys are not touched, and Delete removes exactly its key.
+//@ spec storeOK(s *Store) bool = s != nil && s.data != nil && (forall k string :: k in s.data ==> s.data[k] != nil)
+//@ spec intAt(s *Store, key string) bool = key in s.data && typeis(s.data[key].Value, *pb.ReceiverDataValue_IntVal) && unbox(s.data[key].Value, *pb.ReceiverDataValue_IntVal) != nil
+//@ spec strAt(s *Store, key string) bool = key in s.data && typeis(s.data[key].Value, *pb.ReceiverDataValue_StrVal) && unbox(s.data[key].Value, *pb.ReceiverDataValue_StrVal) != nil
+//@ func (*Store).SetInt
+//@   props C10
+//@   requires storeOK(s)
+//@   ensures [stored] intAt(s, key) && unbox(s.data[key].Value, *pb.ReceiverDataValue_IntVal).IntVal == v
+//@   ensures [others] forall k string :: k != key ==> (k in s.data) == old(k in s.data) && s.data[k] == old(s.data[k])
+//@   ensures [ok] storeOK(s)
+//@   assigns s.data[*]
+//@ func (*Store).SetStr
+//@   props C10
+//@   requires storeOK(s)
+//@   ensures [stored] strAt(s, key) && unbox(s.data[key].Value, *pb.ReceiverDataValue_StrVal).StrVal == v
+//@   ensures [others] forall k string :: k != key ==> (k in s.data) == old(k in s.data) && s.data[k] == old(s.data[k])
+//@   ensures [ok] storeOK(s)
+//@   assigns s.data[*]
+//@ func (*Store).GetInt
+//@   props C10
+//@   requires storeOK(s)
+//@   assumes forall k string :: k in s.data && typeis(s.data[k].Value, *pb.ReceiverDataValue_IntVal) ==> unbox(s.data[k].Value, *pb.ReceiverDataValue_IntVal) != nil
+//@   ensures [found-iff-an-integer-is-stored] result1 == (key in s.data && typeis(s.data[key].Value, *pb.ReceiverDataValue_IntVal))
+//@   ensures [value] result1 ==> result0 == unbox(s.data[key].Value, *pb.ReceiverDataValue_IntVal).IntVal
+//@   ensures [absent-reads-zero] !result1 ==> result0 == 0
+//@   assigns nothing
+//@ func (*Store).GetStr
+//@   props C10
+//@   requires storeOK(s)
+//@   assumes forall k string :: k in s.data && typeis(s.data[k].Value, *pb.ReceiverDataValue_StrVal) ==> unbox(s.data[k].Value, *pb.ReceiverDataValue_StrVal) != nil
+//@   ensures [found-iff-a-string-is-stored] result1 == (key in s.data && typeis(s.data[key].Value, *pb.ReceiverDataValue_StrVal))
+//@   ensures [value] result1 ==> result0 == unbox(s.data[key].Value, *pb.ReceiverDataValue_StrVal).StrVal
+//@   ensures [absent-reads-empty] !result1 ==> result0 == ""
+//@   assigns nothing
+//@ func (*Store).Delete
+//@   props C10
+//@   requires storeOK(s)
+//@   ensures [deleted] !(key in s.data)
+//@   ensures [others] forall k string :: k != key ==> (k in s.data) == old(k in s.data) && s.data[k] == old(s.data[k])
+//@   assigns s.data[*]
+
 // decodeState reads length-delimited protobuf records; the codec is outside the verified subset. Assumed (codec axiom):
 // on success the result is a fresh map whose entries are well-formed and stored under their own key.
 //@ func decodeState
